@@ -81,6 +81,12 @@ def run(ck):
                 n = [0, 1, 7][k] if k < 3 else ck.rng.choice([0, 1, 2, 3, 7, 20, 64])
                 style = ck.rng.choice(["random", "random", "random", "zeros", "ones"])
                 params = fio.rand_extra_params(ck.rng) if k != 0 else []
+                if k == 1:
+                    # a scaled extra dimension whose scaling is the identity is still a scaled dimension
+                    from laspy import ExtraBytesParams
+                    kk_ = ck.rng.choice([1, 2, 3])
+                    t_ = ck.rng.choice(["u1", "i2", "u4", "i8", "f4"])
+                    params = [ExtraBytesParams(name="ident", type=t_ if kk_ == 1 else f"{kk_}{t_}", scales=np.ones(kk_), offsets=np.zeros(kk_))] + params
                 scales, offsets = gen_scaling(ck.rng)
                 vlrs = fio.rand_vlrs(ck.rng, False)
                 evlrs = fio.rand_vlrs(ck.rng, True) if (minor >= 4 and ck.rng.random() < 0.6) else None
@@ -132,6 +138,11 @@ def run(ck):
                 if [str(d.dtype) for d in back.point_format.extra_dimensions] != [str(d.dtype) for d in las.point_format.extra_dimensions] or \
                         list(back.point_format.extra_dimension_names) != list(las.point_format.extra_dimension_names):
                     ck.fail("extra dimensions changed", inp)
+                elif back.point_format != las.point_format:
+                    def desc(pf):
+                        return [(d.name, str(d.dtype), None if d.scales is None else np.asarray(d.scales).tolist(),
+                                 None if d.offsets is None else np.asarray(d.offsets).tolist()) for d in pf.extra_dimensions]
+                    ck.fail(f"the point format read back is not the one written: extra dimensions {desc(back.point_format)} were {desc(las.point_format)}", inp)
                 # read back in pieces that are all kept until the end (equal-sized pieces, a short last one)
                 if n >= 2:
                     kk = ck.rng.choice([1, 2, 3, max(1, n // 3)])
